@@ -114,7 +114,7 @@ func (d *Downstream) closeWithError(ctx context.Context, cause error) (err error
 	}
 	beforeStatus := d.state.Swap(streamStatusDraining)
 	if beforeStatus == streamStatusDraining {
-		return errors.New("already draining")
+		return errors.Errorf("already draining: %w", errors.ErrStreamClosed)
 	}
 
 	if beforeStatus != streamStatusResuming {
